@@ -10,7 +10,7 @@ import numpy as np
 
 from .. import compare, env, kinds, rng
 
-NMAX, MMAX, WMAX = 256, 64, 24
+NMAX, MMAX, WMAX = 1024, 64, 24
 
 CLASS_POOL = [
     list(range(9)), [8, 3, 5, 1], [2, 4, 6], [7, 0, 3, 9, 1], list(range(4)), list(range(12)),
@@ -176,7 +176,8 @@ def gen_history(seed, tier, prop, kinds_allowed):
            'regime': regime, 'table_seed': rng.H(seed, 'table'), 'offset': 0}
     # sizes
     if regime == 'exact':
-        n = _weighted(r, [(r.randint(2, 12), 3), (r.randint(13, 64), 4), (r.randint(65, 256 if thorough else 128), 1)])
+        n = _weighted(r, [(r.randint(2, 12), 3), (r.randint(13, 64), 4), (r.randint(65, 256 if thorough else 128), 1),
+                          (r.randint(300, 1000), 0.5)])      # batches of several hundred rows: counters / sums kept in a narrow integer type wrap
     else:
         n = r.randint(24, 96)
     wide = thorough and kind in ('anova', 'nicv', 'snr', 'mia', 'ttacc') and r.random() < 0.05
